@@ -28,10 +28,15 @@ import time
 VERIF = os.path.dirname(os.path.dirname(os.path.abspath(__file__)))
 REPO = os.environ.get("VERIF_REPO", "/repo")
 WORK = os.path.join(VERIF, "_work")
-PBUILD = os.path.join(WORK, "pbuild")
+# VERIF_REPO=<scratch worktree> redirects a check to a copy of the repository (mutation
+# testing); the PaRSEC build directory then lives inside that copy.
+PBUILD = os.path.join(WORK, "pbuild") if REPO == "/repo" else os.environ.get("VERIF_PBUILD", os.path.join(REPO, "_vbuild"))
 COQ = os.path.join(VERIF, "coq")
-BIN = os.path.join(WORK, "bin")
-CASES = os.path.join(WORK, "cases")
+_SFX = "" if REPO == "/repo" else "-" + hashlib.sha1(REPO.encode()).hexdigest()[:8]
+BIN = os.path.join(WORK, "bin" + _SFX)
+CASES = os.path.join(WORK, "cases" + _SFX)
+EVID = os.path.join(VERIF, "evidence") if REPO == "/repo" else os.path.join(WORK, "evidence" + _SFX)
+REPLAYS = os.path.join(VERIF, "replays") if REPO == "/repo" else os.path.join(WORK, "replays" + _SFX)
 GUARD = "ICLDISCO_PARSEC_VERIF"
 MPI_INC = ["-I/usr/lib/x86_64-linux-gnu/openmpi/include",
            "-I/usr/lib/x86_64-linux-gnu/openmpi/include/openmpi"]
@@ -599,7 +604,7 @@ class Check:
         known, _ = known_findings()
         known = [(s, d) for (p, s, d) in known if p == self.id]
         violations = []
-        os.makedirs(os.path.join(VERIF, "replays"), exist_ok=True)
+        os.makedirs(REPLAYS, exist_ok=True)
         seen_known = set()
         reported_sigs = set()
         for i, why in oracle_fail:
@@ -614,7 +619,7 @@ class Check:
                 continue
             reported_sigs.add(sig)
             c, a = self.shrink(cases[i], impl[i])
-            path = os.path.join(VERIF, "replays", "%s-%d-%s.case" % (self.id, self.seed, sig))
+            path = os.path.join(REPLAYS, "%s-%d-%s.case" % (self.id, self.seed, sig))
             with open(path, "w") as f:
                 f.write("# property %s violated on the implementation: %s\n" % (self.id, why))
                 f.write("# impl : %s\n# model: %s\n" % (a, model[i] if i < len(model) else "?"))
@@ -628,7 +633,7 @@ class Check:
         if broken and not violations:
             # an obligation or the correspondence broke and no failing input was found
             # (a known finding that explains a correspondence break does not count as found)
-            path = os.path.join(VERIF, "replays", "%s-%d-broken.txt" % (self.id, self.seed))
+            path = os.path.join(REPLAYS, "%s-%d-broken.txt" % (self.id, self.seed))
             with open(path, "w") as f:
                 f.write("# property %s is no longer shown to hold; no failing input was found\n" % self.id)
                 for b in broken:
@@ -661,8 +666,8 @@ class Check:
         ev = {"property_id": self.id, "tier": self.tier, "seed": self.seed, "level": "proof",
               "coverage": cov, "assumptions": list(self.assumptions),
               "wall_s": round(time.time() - self.t0, 2), "violations": nviol}
-        os.makedirs(os.path.join(VERIF, "evidence"), exist_ok=True)
-        with open(os.path.join(VERIF, "evidence", self.id + ".json"), "w") as f:
+        os.makedirs(EVID, exist_ok=True)
+        with open(os.path.join(EVID, self.id + ".json"), "w") as f:
             json.dump(ev, f, indent=1, sort_keys=True)
             f.write("\n")
 
